@@ -50,7 +50,8 @@ ASSUMPTIONS = [
     "branch is non-empty",
 ]
 REQUIRED = ["documents_converted", "rows_compared", "nested_splits", "empty_first_alt",
-            "empty_later_alt", "empty_split", "points_after_split", "with_comments", "with_colours",
+            "empty_later_alt", "empty_split", "points_after_split", "documents_with_repeated_points",
+            "path_converted_again_after_rewrite", "with_comments", "with_colours",
             "deep_documents", "long_branches", "prefixes_tried", "prefixes_rejected",
             "corruptions_tried", "corruptions_rejected", "entry_from_stream", "entry_convert",
             "entry_call", "comment_invariance_checked", "tap_parser_raise"]
@@ -84,10 +85,18 @@ def gen_model(seed, shape="generic"):
             s = "%d." % int(v) + "0"
         return s
 
+    last = [None]
+
     def point():
         cnt[0] += 1
-        toks = [str(cnt[0]) if rng.random() < 0.7 else "%d.0" % cnt[0], num(), num(),
-                "%.2f" % (abs(float(rng.integers(1, 400))) / 16)]
+        if last[0] is not None and rng.random() < 0.06:
+            # a sample repeated at the same position (another radius): still its own point
+            toks = last[0][:3] + ["%.2f" % (abs(float(rng.integers(1, 400))) / 16)]
+            cnt.append("dup")
+        else:
+            toks = [str(cnt[0]) if rng.random() < 0.7 else "%d.0" % cnt[0], num(), num(),
+                    "%.2f" % (abs(float(rng.integers(1, 400))) / 16)]
+        last[0] = toks
         return toks
 
     def branch(depth, allow_empty, max_pts=4, p_split=0.6, max_alts=4):
@@ -135,7 +144,7 @@ def gen_model(seed, shape="generic"):
                               [("pt", point())]]))
     else:
         raise ValueError(shape)
-    return {"label": label, "top": top, "npoints": cnt[0]}
+    return {"label": label, "top": top, "npoints": cnt[0], "repeated_points": len(cnt) - 1}
 
 
 def expected_rows(model):
@@ -291,6 +300,9 @@ def budget():
     return _BUDGET
 
 
+_PATH_REUSE = [0]
+
+
 def convert(entry, text, tmp):
     from swcgeom.transforms import NeurolucidaAscToSwc
 
@@ -299,6 +311,15 @@ def convert(entry, text, tmp):
         fn = lambda: NeurolucidaAscToSwc.from_stream(io.StringIO(text))  # noqa: E731
     else:
         path = os.path.join(tmp, "doc.asc")
+        if len(text) % 2:
+            # the same path held another document a moment ago (files get re-exported): every
+            # conversion reads what the file holds now
+            from swcgeom.transforms import NeurolucidaAscToSwc as _A
+
+            with open(path, "w") as f:
+                f.write("( (Axon) (1 2 3 0.5) (2 2 3 0.5) )\n")
+            (_A.convert(path) if entry == "convert" else _A()(path))
+            _PATH_REUSE[0] += 1
         with open(path, "w") as f:
             f.write(text)
         if entry == "convert":
@@ -343,6 +364,8 @@ def check_doc(ctx, case, tmp):
         ctx.count("with_colours")
     if case["shape"] == "long":
         ctx.count("long_branches")
+    if model.get("repeated_points"):
+        ctx.count("documents_with_repeated_points")
     ctx.count("entry_" + {"from_stream": "from_stream", "convert": "convert",
                           "call": "call"}[entry])
     try:
@@ -499,6 +522,7 @@ def run(ctx):
                     "rseed": int(rng.integers(0, 2**31 - 1))}
             ctx.case(case, klass="corrupt")
             execute(ctx, case)
+    ctx.count("path_converted_again_after_rewrite", _PATH_REUSE[0])
     ctx.count("tap_parser_raise", rt.raises["parse"])
     ctx.count("tap_parser_return", rt.returns["parse"])
 
